@@ -1,10 +1,11 @@
+import Jrpc.Frames
 import JrpcProofs.Lemmas.Framing
 /-
   C09 — Server replies conform to JSON-RPC 2.0 for every request, single or batch.
 
   Property theorems only.  Model: `Jrpc.Framing` / `Jrpc.Dispatch` (HTTP) ; the WebSocket clause
-  (`C09_ws_*`) is stated over `Handler.handle true`, which is what `handleCall` runs with the
-  discard writer for id-less frames.
+  (`C09_ws_*`) is stated over `Jrpc.wsCall` (`handleCall`: `handle true` plus the writer selection —
+  the discard writer for id-less frames).
 -/
 namespace Jrpc.C09
 open Jrpc
@@ -177,6 +178,54 @@ theorem C09_ws_notification (h : Handler) (req : Req) (m : Method)
   unfold Handler.handle
   simp only [hm, hraw]
   cases hbb : m.behav <;> simp_all
+
+def exM0 : Method := { tag := "T.Add", ptypes := ["int"], hasCtx := false, raw := false,
+                       out := .valErr, isChan := false, behav := .ok }
+def exH0 : Handler := { methods := [("T.Add".toList, exM0)], aliases := [] }
+
+/-- C09_ws (notification clause, full strength): over WebSocket an id-less frame puts nothing on the
+    wire, whatever the handler table, method, params and handler behaviour — unknown method, wrong
+    arity, undecodable params and a panicking handler included (they all go to the discard writer). -/
+theorem C09_ws_notification_silent (h : Handler) (req : Req) (hid : req.id = .nil) :
+    (wsCall h req).2 = none := by
+  simp [wsCall, wsWire, hid]
+
+/-- C09_ws (id clause, full strength): a frame with a string or number id gets exactly one response
+    frame — written by the handler goroutine through `nextWriter`, or, for a channel result, by the
+    forwarder at registration — and that frame echoes the request's id. -/
+theorem C09_ws_exactly_one (h : Handler) (req : Req) (hid : req.id ≠ .nil) :
+    (((wsCall h req).2.isSome ∧ (wsCall h req).1.chanReg = false) ∨
+     ((wsCall h req).2 = none ∧ (wsCall h req).1.chanReg = true)) ∧
+    (∀ r, (wsCall h req).2 = some r → r.id = req.id) := by
+  have hne : (req.id == NId.nil) = false := by simpa using hid
+  refine ⟨?_, ?_⟩
+  · simpa [wsCall, wsWire, hne] using C09_ws_answered h req hid
+  · intro r hr
+    simp only [wsCall, wsWire, hne] at hr
+    exact C09_id_echo h true req r (by simpa using hr)
+
+/-- The executor appends to the wire exactly what `wsCall` says, for every frame. -/
+theorem C09_ws_exec_wire (h : Handler) (s s' : ExecState) (f : FrameIn)
+    (hx : execFrame h s f = .ok s') :
+    s'.wire = s.wire ∨
+    ∃ id, normalizeID f.id = some id ∧ s'.wire = s.wire ++ (wsCall h ⟨id, f.method.toList, f.call⟩).2.toList := by
+  unfold execFrame at hx
+  repeat' split at hx
+  all_goals first
+    | (simp at hx; subst hx; simp; done)
+    | (simp [handleResponse, cancelCtx, handleChanMessage, handleChanClose] at hx
+       repeat' split at hx
+       all_goals first | (simp at hx; subst hx; simp; done) | (simp at hx; done))
+    | (rename_i key hkey _ _ _ _ _ _ o w heq _
+       injection hx with hx
+       subst hx
+       right
+       exact ⟨key, hkey, by simp [heq]⟩)
+
+/-- Non-vacuity: a notification for an unknown method, and one for a known method with a wrong arity,
+    are silent on the wire although `handle` produced an error object for each. -/
+example : (wsCall exH0 ⟨.nil, "T.Nope".toList, .absent⟩).2 = none
+    ∧ ((exH0.handle true ⟨.nil, "T.Nope".toList, .absent⟩).resp).isSome = true := by decide
 
 /-- Non-vacuity: a concrete mixed batch (call, notification, invalid id, unknown method). -/
 def exM : Method := { tag := "T.Add", ptypes := ["int"], hasCtx := false, raw := false,
